@@ -8,7 +8,8 @@ from ..srcmodel import AnalysisError
 from ..cfg import cfg_of
 from ..atoms import Atomizer
 from .. import astutil as A
-from .common_node import (closed_connections_are_removed, disconnect_record,
+from .common_node import (closed_connections_are_removed, connection_table_pairing,
+                          disconnect_record,
                           peer_connection_ownership)
 
 TECHNIQUE = "resource pairing over the connection tables + ownership (contradiction) rule + CFG dominance"
@@ -46,53 +47,7 @@ def run(ctx: Ctx):
     ctx.use(add, rem, ccs, asg)
     conn_param = [a.arg for a in add.node.args.args][1]
 
-    # ---------------- R1 table pairing --------------------------------------
-    ctx.rule("C13-R1", "every table filled by _add_peer_connection is emptied by "
-                       "remove_peer_connection, guarded by membership only", floor=4)
-    tables: dict[str, str] = {}
-    for n in A.walk_no_nested(add.node):
-        if isinstance(n, ast.Assign):
-            for t in n.targets:
-                if isinstance(t, ast.Subscript) and isinstance(t.value, ast.Attribute) \
-                        and A.dotted(t.value.value) == "self":
-                    tables[t.value.attr] = ast.unparse(t.slice)
-    ctx.note(f"tables filled by _add_peer_connection: {tables}")
-    rparam = [a.arg for a in rem.node.args.args][1]
-    for tbl, key in sorted(tables.items()):
-        cons = f"remove_peer_connection:delete({tbl})"
-        ctx.inst(cons, sample={"table": tbl, "insert_key": key})
-        dels = []
-        for n in A.walk_no_nested(rem.node):
-            if isinstance(n, ast.Delete):
-                for t in n.targets:
-                    if isinstance(t, ast.Subscript) and isinstance(t.value, ast.Attribute) \
-                            and t.value.attr == tbl:
-                        dels.append((n, ast.unparse(t.slice)))
-            elif isinstance(n, ast.Call) and isinstance(n.func, ast.Attribute) \
-                    and n.func.attr == "pop" and isinstance(n.func.value, ast.Attribute) \
-                    and n.func.value.attr == tbl and n.args:
-                dels.append((n, ast.unparse(n.args[0])))
-        if not dels:
-            ctx.fail(cons, rem.loc(), f"remove_peer_connection never deletes from {tbl}: entries of "
-                     f"closed connections stay for ever (stale lookups by "
-                     f"{'file number, which the OS reuses' if 'fileno' in key else 'connection id'})")
-            continue
-        want = key.replace(conn_param, rparam)
-        good = [d for d in dels if d[1] == want]
-        if not good:
-            ctx.fail(cons, rem.loc(dels[0][0]), f"{tbl} is filled under key `{key}` but emptied "
-                     f"under `{dels[0][1]}`")
-            continue
-        d = good[0][0]
-        bad = None
-        for test, pol in A.enclosing_tests(rem.node, d):
-            for conj, p_ in A.conjuncts(test, pol):
-                if tbl not in ast.unparse(conj):
-                    bad = conj
-        if bad is not None:
-            ctx.fail(cons + "#conditional", rem.loc(d),
-                     f"the delete from {tbl} only happens under `{ast.unparse(bad)}`, which is "
-                     f"not a membership test on the table: on the other branch the entry stays")
+    connection_table_pairing(ctx, "C13-R1")
 
     # ---------------- R2 closes reach the removal -----------------------------
     closed_connections_are_removed(ctx, "C13-R2")
